@@ -276,6 +276,7 @@ type c30 struct {
 	st      *c30Stats
 	samples *ev.Samples
 	seen    sync.Map // chart JSON -> struct{}: coverage counters count DISTINCT charts
+	shared  *sharedStats
 }
 
 func (c *c30) violation(stage, kind string, ch Chart, extra map[string]any, format string, a ...any) {
@@ -578,7 +579,7 @@ func runC30() int {
 	r := ev.Start("C30", ev.LevelExploration, 150*time.Second, 30*time.Minute)
 	defer debug.SetGCPercent(debug.SetGCPercent(400)) // allocation-heavy (the implementation allocates an error per rejected address)
 	ctx := context.Background()
-	c := &c30{r: r, st: &c30Stats{structOnlyDiffs: newCounter(), stages: newCounter()}, samples: ev.NewSamples(6)}
+	c := &c30{r: r, st: &c30Stats{structOnlyDiffs: newCounter(), stages: newCounter()}, samples: ev.NewSamples(6), shared: newSharedStats()}
 
 	m2 := []MetaOpt{MetaNone, MetaDefault}
 	m3 := []MetaOpt{MetaNone, MetaDefault, MetaNoDef}
@@ -606,10 +607,61 @@ func runC30() int {
 		return r.Finish(nil, []string{pgsimAssumption})
 	}
 
+	// two ledgers of one bucket (the default one) for the shared-bucket leg
+	boot2, err := lx.Boot(ctx, []lx.LedgerSpec{{Name: sharedLedgers[0]}, {Name: sharedLedgers[1]}})
+	if err != nil {
+		r.EngineError("boot (two ledgers, one bucket): " + err.Error())
+		return r.Finish(nil, []string{pgsimAssumption})
+	}
+	// (transactions, queries) menu pairs of the shared-bucket schema menu: none, richest;
+	// thorough adds the two mixed pairs
+	sharedPairs := [][2]int{{0, 0}, {3, 3}}
+	if r.Thorough() {
+		sharedPairs = append(sharedPairs, [2]int{2, 1}, [2]int{1, 2})
+	}
+	var sharedCov map[string]any
+
 	exhaustive := true
 	var famCov []map[string]any
-	for _, f := range fams {
+	for fi, f := range fams {
 		f := f
+		if fi == 1 {
+			// after the single-ledger leg of the special family, before the larger families:
+			// the same charts, two ledgers sharing a bucket and a version label
+			sf := fams[0]
+			t0 := time.Now()
+			menu := c.sharedMenu(sf, sharedPairs)
+			cases := sharedCases(len(menu), r.Thorough())
+			var doneS atomic.Int64
+			complete := menu != nil && parallelFor(r, len(cases), func(i int) {
+				cs := cases[i]
+				c.sharedScenario(ctx, boot2, [2]*sharedSchema{menu[cs.a], menu[cs.b]}, cs.first, sf.Addrs)
+				doneS.Add(1)
+				if i%97 == 0 {
+					c.samples.Add(map[string]any{"family": "shared-bucket", "version": sharedVersion, "insertsFirst": sharedLedgers[cs.first],
+						sharedLedgers[0]: json.RawMessage(menu[cs.a].src), sharedLedgers[1]: json.RawMessage(menu[cs.b].src)})
+				}
+			})
+			if !complete {
+				exhaustive = false
+			}
+			sh := c.shared
+			sharedCov = map[string]any{
+				"space": fmt.Sprintf("ledgers %s and %s in the same bucket; schema menu = every chart of family `%s` x %d (transactions, queries) template menu pairs = %d schemas; "+
+					"every %s pair of different menu entries (%s inserts the first, %s the second) under the same version label %q x both insertion orders",
+					sharedLedgers[0], sharedLedgers[1], sf.Name, len(sharedPairs), len(menu), ev.Pick(r, "unordered", "ordered"), sharedLedgers[0], sharedLedgers[1], sharedVersion),
+				"schemas_in_menu": len(menu), "scenarios_in_space": len(cases), "scenarios_done": doneS.Load(), "complete": complete,
+				"scenarios_checked_to_the_end":       sh.scenarios.Load(),
+				"scenarios_with_schemas_that_differ": sh.distinctPairs.Load(),
+				"inserted_first":                     map[string]int64{sharedLedgers[0]: sh.firstL1.Load(), sharedLedgers[1]: sh.firstL2.Load()},
+				"reads_by_path":                      sh.reads.snapshot(),
+				"strict_writes":                      map[string]int64{"accepted": sh.writesAccepted.Load(), "rejected": sh.writesRejected.Load(), "on_an_address_the_two_schemas_disagree_on": sh.writesWitness.Load(), "accepted_creating_an_account_with_default_metadata": sh.writesWithDefaults.Load()},
+				"addresses_per_chart":                len(sf.Addrs), "wall_s": time.Since(t0).Seconds(),
+			}
+			if !complete {
+				break
+			}
+		}
 		t0 := time.Now()
 		done := int64(0)
 		var doneA atomic.Int64
@@ -675,6 +727,13 @@ func runC30() int {
 			r.EngineError("vacuous: no chart with a pattern / .self was enumerated")
 		case st.dbSchemas.Load() == 0:
 			r.EngineError("vacuous: no schema went through InsertSchema/GetSchema")
+		case c.shared.distinctPairs.Load() == 0 || c.shared.firstL1.Load() == 0 || c.shared.firstL2.Load() == 0:
+			r.EngineError("vacuous: no two ledgers of one bucket held different schemas under the same version label in both insertion orders")
+		case c.shared.reads.get("shared-bucket-db-get") == 0 || c.shared.reads.get("shared-bucket-db-restart-get") == 0 ||
+			c.shared.reads.get("shared-bucket-db-list") == 0 || c.shared.reads.get("shared-bucket-db-log") == 0:
+			r.EngineError("vacuous: a read path of the shared-bucket leg was never exercised")
+		case c.shared.writesAccepted.Load() == 0 || c.shared.writesRejected.Load() == 0 || c.shared.writesWitness.Load() == 0 || c.shared.writesWithDefaults.Load() == 0:
+			r.EngineError("vacuous: the strict-mode writes of the shared-bucket leg were never both accepted and rejected, never on an address the two schemas disagree on, or never created an account with default metadata")
 		}
 	}
 	stageNames := st.stages.snapshot()
@@ -694,6 +753,7 @@ func runC30() int {
 		"charts_with_default_metadata": st.metaCharts.Load(),
 		"evaluations_by_stage":         stageNames,
 		"families":                     famCov,
+		"shared_bucket":                sharedCov,
 		"samples":                      c.samples.List(),
 		"exhaustive":                   exhaustive,
 		"structural_differences_without_change_of_meaning": st.structOnlyDiffs.snapshot(),
@@ -702,6 +762,10 @@ func runC30() int {
 			"evaluation = one (chart, address, stage) comparison of FindAccountSchema (accepted/rejected + default metadata) over every address of <=4 segments over the token alphabet {bank, users, 007, x7} (spine families: every address of <=3 segments plus every 4-segment address under `bank`; special family: 8 tokens incl. the empty segment); " +
 			"stages: reference matcher vs implementation (JSON form and Go form); JSON marshal->unmarshal->marshal (stable bytes, same classification) of both forms; SchemaData marshal/unmarshal with transaction and query templates; " +
 			"InsertSchema through the real controller on pgsim then GetSchema (same process), GetSchema + ListSchemas + INSERTED_SCHEMA log payload from a freshly attached stack; templates and query templates compared as JSON documents. " +
+			"shared-bucket leg (stages shared-bucket-*): two ledgers of the SAME bucket insert two different schemas under the SAME version label, every pair of the stated schema menu (quick: unordered pairs, thorough: ordered pairs) x both insertion orders; " +
+			"each ledger must read back the schema IT inserted through GetSchema (same process), GetSchema + every ListSchemas entry of that version + every INSERTED_SCHEMA log of that version (fresh stack), compared over the whole address menu and both template maps; " +
+			"and through the write path: in strict mode, a forced posting from an address to itself naming the version, on the first valid account address of each class {own accepts/other rejects, own rejects/other accepts, both accept with different defaults, both accept alike, both reject}, " +
+			"must be accepted iff the ledger's own schema has no templates and its chart accepts the address, and the created account must carry exactly the own chart's default metadata; a mismatch that coincides with the other ledger's schema is signed other-ledgers-schema. " +
 			"distinct_nontrivial = DISTINCT charts (by JSON text, across families) that accept at least one and reject at least one address of their menu",
 	}
 	return r.Finish(cov, []string{pgsimAssumption,
